@@ -303,11 +303,11 @@ def run(chk, gate, status):
             ndis += 1
             continue
         mo, ms = dm[-1]
-        if c[0] == 'bake' and (mo[0] == 'ok' or mo[1] == 'ValueError') and out[0] == 'exc' and out[1] != 'RuntimeError' and 'declared as used' not in str(out[2]) and after == before_cache[path][0]:
+        if c[0] == 'bake' and (mo[0] == 'ok' or mo[1] == 'ValueError') and out[0] == 'exc' and out[1] != 'RuntimeError' and 'declared as used' not in str(out[2]) and after[0] is False and (after[1:] == ms[1:] or after == before_cache[path][0]):
             # a recorded step cannot be performed (a second dilution to a concentration already reached, a dilution of an object whose
             # name a later create_solution re-bound, a step that refers to an object renamed by dilute(new_name=...) ...): bake performs the
             # steps before it looks for unused declarations, raises for a reason the lifecycle automaton does not model, and leaves
-            # the recipe unbaked and unchanged.  Counted, not compared; that steps are performed faithfully is C08's subject.
+            # the recipe unbaked (an open stage is closed by the attempt, as in the model).  Counted, not compared; that steps are performed faithfully is C08's subject.
             physical += 1
             continue
         agree = (mo[0] == out[0]) and (mo[0] == 'ok' or (mo[1] == out[1] if mo[1] != 'Other' else out[1] not in ('ValueError', 'TypeError', 'RuntimeError'))) and ms == after
